@@ -1,4 +1,5 @@
 # setup: build every engine once (checks rebuild incrementally from /repo on every run anyway)
 setup:
 	$(MAKE) -s -f engines/chanbfs/Makefile FLAVOUR=plain all
+	$(MAKE) -s -j16 -f engines/vsched/Makefile FLAVOUR=cov all
 .PHONY: setup
